@@ -24,6 +24,7 @@ type Env struct {
 	noSplitTrig bool
 	atPos  token.Pos // evaluating at this source position: same-named locals resolve to the nearest one declared before it
 	loop   *loopInfo // evaluating an invariant of this loop: same-named locals resolve to the one the loop assigns
+	funArgs map[string]*ssa.Function // at a call site: the static functions passed for the callee's purefunc parameters
 }
 
 func (g *Gen) newEnv(cur, old *State, pkg string) *Env {
@@ -676,6 +677,22 @@ func (g *Gen) evalCall(env *Env, x *SExpr) *Val {
 			as = append(as, g.eval(env, a))
 		}
 		return intVal(g.detResTerm(x.Args[0].Name, as, KInt))
+	case "funpre":
+		// funpre(p, args...): the precondition of the function passed as purefunc parameter p holds for args.
+		// Inside the function that owns p it is an uninterpreted predicate (every call of p owes it); at a call site
+		// that passes a known function F for p it is F's own requires clause (which must not read the heap, because
+		// the callee relies on it at later points of its execution).
+		if x.Args[0].Op != "ident" {
+			specErr(x, "funpre takes a parameter name")
+		}
+		var as []*Val
+		for _, a := range x.Args[1:] {
+			as = append(as, g.eval(env, a))
+		}
+		if f := env.funArgs[x.Args[0].Name]; f != nil {
+			return boolVal(g.funPreOf(env, f, as))
+		}
+		return boolVal(g.funPreTerm(x.Args[0].Name, as))
 	case "ifslice":
 		// ifslice(v, "[]T"): the slice boxed in interface value v
 		a := g.eval(env, x.Args[0])
